@@ -257,7 +257,8 @@ def generate(rng, tier):
     # the recorded D6 witness (and its f32 / negative twins), at both levels
     w = 0xadac7f77c5a6a4 * (1 << 108) + (1 << 50)
     cases += ["u.to_f64 %s" % U(w), "i.to_f64 %s" % I(-w), "u.to_f32 %s" % U(w), "h.high_bits_to_u64 %s" % D(to_digits(w))]
-    return cases
+    import extra_cases          # API-audit additions (docs/API_COVERAGE.md); produced after the original cases
+    return cases + extra_cases.c08(rng, tier)
 
 def nontrivial(case):
     toks = case.split(" ")
